@@ -119,6 +119,14 @@ def check(ctx, doc, ops, cls):
         return
     d = copy.deepcopy(doc)
     opsc = copy.deepcopy(ops)
+    if isinstance(doc, (dict, list)) and (getattr(ctx, "_force_exotic", False) or ctx.rng.random() < 0.15):
+        # the document (and the operations' values) held in mutable dict / list subclasses
+        from rt import gen as _gen
+
+        d = _gen.exotic_mutable(d, ctx.rng)
+        opsc = [dict(op, value=_gen.exotic_mutable(op["value"], ctx.rng)) if "value" in op else op for op in opsc]
+        case["containers"] = "dict/list subclasses"
+        ctx.count("documents_in_dict_and_list_subclasses")
     o = impl.call(jsonpath.patch.apply, opsc, d)
     opn = "+".join(op["op"] for op in ops) if len(ops) == 1 else "sequence"
     if fail is not None:
@@ -401,4 +409,9 @@ def replay(case, ctx):
         check_builder(ctx, case["doc"], case["ops"], case["pointer_class"])
         return
     ctx._force_builder = bool(case.get("builder_from_parts"))
+    if case.get("containers"):
+        ctx._force_exotic = True
+        for _ in range(12):
+            check(ctx, case["doc"], case["ops"], case.get("class", "replay"))
+        return
     check(ctx, case["doc"], case["ops"], case.get("class", "replay"))
